@@ -86,5 +86,10 @@ let handle (fields : ostring list) : ostring =
        | "escJson" -> "OK\t" ^ of_list_n (escape_json (param ()) (list_n_of arg))
        | "escPython" -> "OK\t" ^ of_list_n (escape_python (param ()) (list_n_of arg))
        | "parseJson" -> out_of show_json jerr (parse_json (list_n_of arg))
+       | "md5" -> "OK\t" ^ of_list_n (std_md5 (list_n_of arg))
+       | "sha1" -> "OK\t" ^ of_list_n (std_sha1 (list_n_of arg))
+       | "sha256" -> "OK\t" ^ of_list_n (std_sha256 (list_n_of arg))
+       | "sha512" -> "OK\t" ^ of_list_n (std_sha512 (list_n_of arg))
+       | "sha3" -> "OK\t" ^ of_list_n (std_sha3 (list_n_of arg))
        | _ -> failwith ("codecs: unknown function " ^ fn))
   | _ -> failwith "codecs: bad case"
